@@ -650,9 +650,15 @@ package db
 // whenever the closest key belongs to the very name looked up), every access to the found key, and termination of
 // the round. Not claimed: that stored keys are well-formed names (the precondition of the two label helpers) and
 // that a stored map value has its 4-byte multi-value header.
+// ghost trace of the map walk's probes: the key asked for, the closest key found, its value
+//@ ghostvar mapProbeKey slice
+//@ ghostvar mapProbeFound slice
+//@ ghostvar mapProbeVal slice
 //@ func rdbdriver.findClosest
 //@ trusted
+//@ updates mapProbeKey, mapProbeFound, mapProbeVal
 //@ ensures err != nil ==> k == nil && v == nil
+//@ ensures mapProbeKey == key && mapProbeFound == k && mapProbeVal == v
 //@ func rdbdriver.findMapInSortedData
 //@ flag skip frame
 //@ flag unclaimed /pre/findCommonLongestPrefix|/pre/getLengthWithoutLastLabel|/bounds/foundValue\[4:\]|/bounds/foundKey\[prefixLen:len\(foundKey\)-1\]
@@ -660,5 +666,13 @@ package db
 //@ requires wfname(domain, n, offs, idx) && revoffs(domain, n, offs, roffs, ridx) && len(mtype) == 2 && r != nil && context != nil && dyntype(context) == ptrtag("rdb.Context")
 // (facts of the package's initialisers)
 //@ requires len(exactMatchKeyElement) == 1 && len(wildcardKeyElement) == 1
+// (C02/C04, functional part) a map is returned only as the value stored under the very key that was probed last:
+// the closest key equals the probe byte for byte. A closest key that merely shares labels with the name (a parent's
+// exact map, a sibling) is never taken for the name's map.
+//@ updates mapProbeKey, mapProbeFound, mapProbeVal
+//@ ensures[exact-hit] mapID != nil ==> len(mapProbeFound) == len(mapProbeKey) && forall(j, 0, len(mapProbeKey), mapProbeFound[j] == mapProbeKey[j])
+//@ ensures[its-value] mapID != nil ==> ref(mapID) == ref(mapProbeVal) && off(mapID) == off(mapProbeVal) + 4
+//@ ensures[fail] err != nil ==> mapID == nil
+//@ loop 0 invariant[nomap] mapID == nil
 //@ call reverseZoneName#0 ghost n = n; offs = offs; idx = idx; roffs = roffs; ridx = ridx
 //@ loop 0 invariant[buf] prefixLen == 2 && len(suffix) == 1 && len(reversedZone) == len(domain) && cap(k) >= len(reversedZone) + 3 && len(k) >= prefixLen + 1 + len(suffix) && len(k) <= len(reversedZone) + 3 && fresh(k)
